@@ -18,6 +18,7 @@ RULE = ("case = random family + type AST x (valid dump of a conforming value + 1
         "REF_DECODE(S,d) defined, deep_eq(r, ref) and CONFORMS(S,r) (exact classes); REF_DECODE defined => library "
         "returns. Routes: BasicDecoder, one-shot decode, dataclass field (mixin and plain). distinct_nontrivial = "
         "distinct (type shape, input fingerprint) pairs.")
+RULE += " Additions: pre-parsed format trees through from_msgpack / from_toml / from_json(decoder=identity), with and without an empty call dialect, judged by the reference with the format's natives."
 ASSUMPTIONS = [
     "REF_DECODE is an independent interpreter of the type hints that ends in the same stdlib constructors",
     "inputs are JSON-like trees plus a few non-JSON objects (tuple, bytes, object())",
